@@ -798,6 +798,10 @@ Definition off_tail (x : apu) : apu :=
 Lemma W52_off_eq s v : (N.shiftr v 7 =? 0) = true -> WriteNR52 s v = off_tail (off_chain s).
 Proof. intros H. unfold WriteNR52. rewrite H. cbv zeta. unfold off_tail, off_chain. cbv zeta. reflexivity. Qed.
 
+Lemma W52_on_eq s v :
+  (N.shiftr v 7 =? 0) = false -> WriteNR52 s v = set_on (if ctOn (ctl s) then s else set_fseq s 0) true.
+Proof. intros H. unfold WriteNR52. rewrite H. reflexivity. Qed.
+
 Lemma en_off_tail x :
   en1 (off_tail x) = en1 x /\ en2 (off_tail x) = en2 x /\ en3 (off_tail x) = en3 x /\ en4 (off_tail x) = en4 x.
 Proof. repeat split; reflexivity. Qed.
